@@ -147,7 +147,9 @@ type Features struct {
 	IterSessions                                      int
 	HintMerges, MergeAdopted, MergeAdoptedOverGarbage int
 	C13Rot, C13Thr, C13SyncBatch                      int
+	Tears                                             int
 	Backups                                           int
+	BackupRechecks                                    int
 	BackupWithHint                                    int
 	WritesAfterBackup                                 int
 	IterNonTrivial                                    int // sessions over keys in >= 2 shards with a Seek or a Rewind after Next
@@ -184,6 +186,7 @@ type Runner struct {
 	OnClosed      func(r *Runner) *Fail // called between Close and Open of a reopen (C13)
 	OnMergeResult func(err error) *Fail // judge the return value of Merge (C06, C17)
 	LastMergeErr  error
+	kept          []*keptBackup
 	journal       *os.File
 	journalPath   string
 	sinceFull     int
@@ -485,7 +488,10 @@ func (r *Runner) Finish() *Fail {
 	if r.closed || r.NoDump {
 		return nil
 	}
-	return r.guard("final-dump", func() *Fail { return r.CheckDump(true, nil) })
+	if f := r.guard("final-dump", func() *Fail { return r.CheckDump(true, nil) }); f != nil {
+		return f
+	}
+	return r.guard("backup-recheck", func() *Fail { return r.recheckBackups() })
 }
 
 func (r *Runner) guard(what string, fn func() *Fail) (fail *Fail) {
@@ -656,6 +662,9 @@ func (r *Runner) exec(op *Op) (touched [][]byte, global bool, fail *Fail) {
 
 	case "backup":
 		return nil, true, r.execBackup(op)
+
+	case "tear":
+		return nil, true, r.execTear(op)
 	}
 	return nil, false, failf("harness-bad-op", "unknown op kind %q", op.K)
 }
@@ -1116,6 +1125,9 @@ func (r *Runner) execReopen(op *Op) *Fail {
 		return f
 	}
 	r.F.Reopens++
+	if f := r.recheckBackups(); f != nil {
+		return f
+	}
 	for k := range r.F.dirtySince {
 		r.F.ReopenAfter[k]++
 	}
@@ -1126,6 +1138,10 @@ func (r *Runner) execReopen(op *Op) *Fail {
 // execBackup takes a backup into a fresh directory, opens the copy while the
 // source is still open and compares it with the model at backup time.
 func (r *Runner) execBackup(op *Op) *Fail {
+	// first re-examine the backups taken earlier: whatever the source did since must not have touched them
+	if f := r.recheckBackups(); f != nil {
+		return f
+	}
 	r.F.Backups++
 	dst := filepath.Join(r.Base, fmt.Sprintf("backup-%d", r.F.Backups))
 	if err := r.DB.Backup(dst); err != nil {
@@ -1148,28 +1164,145 @@ func (r *Runner) execBackup(op *Op) *Fail {
 	if op.Opt != nil {
 		opt = *op.Opt
 	}
-	copyDB, err := kv.Open(opt.KV(dst))
-	if err != nil {
-		return failf("backup-open-error", "opening the backup (while the source is open) with %s failed: %v", opt, err)
+	snap := map[string][]byte{}
+	for k, v := range r.Model {
+		snap[k] = v
 	}
-	tmp := &Runner{Env: r.Env, Stats: r.Stats, DB: copyDB, Model: r.Model, Probe: r.Probe, Opt: opt}
+	probe := map[string]struct{}{}
+	for k := range r.Probe {
+		probe[k] = struct{}{}
+	}
+	kb := &keptBackup{dir: dst, opt: opt, model: snap, probe: probe, n: r.F.Backups}
+	if f := r.verifyBackup(kb, "right after Backup returned"); f != nil {
+		return f
+	}
+	// keep it: it must stay an independent, valid database while the source carries on
+	r.kept = append(r.kept, kb)
+	if len(r.kept) > 2 {
+		old := r.kept[0]
+		r.kept = r.kept[1:]
+		r.dropBackup(old)
+	}
+	return nil
+}
+
+type keptBackup struct {
+	dir    string
+	opt    Opt
+	model  map[string][]byte
+	probe  map[string]struct{}
+	n      int
+	checks int
+}
+
+// verifyBackup opens the copy (while the source is open), compares it with the mapping at backup time, writes one
+// key into the COPY (it is an independent database) and closes it.
+func (r *Runner) verifyBackup(kb *keptBackup, when string) *Fail {
+	copyDB, err := kv.Open(kb.opt.KV(kb.dir))
+	if err != nil {
+		return failf("backup-open-error", "backup #%d, %s: opening it (while the source is open) with %s failed: %v", kb.n, when, kb.opt, err)
+	}
+	tmp := &Runner{Env: r.Env, Stats: r.Stats, DB: copyDB, Model: kb.model, Probe: kb.probe, Opt: kb.opt}
 	f := tmp.guard("backup-dump", func() *Fail { return tmp.CheckDump(true, nil) })
+	if f == nil {
+		// the copy is a database of its own: a write into it must succeed and must not show up in the source
+		v := GenValue(uint64(9000+kb.n*10+kb.checks), 13)
+		if err := copyDB.Put([]byte("~written-into-the-backup"), v); err != nil {
+			f = failf("backup-not-writable", "Put into the opened backup failed: %v", err)
+		} else {
+			kb.model["~written-into-the-backup"] = v
+			r.Probe["~written-into-the-backup"] = struct{}{}
+		}
+	}
 	if f != nil {
 		func() {
 			defer func() { _ = recover() }()
 			_ = copyDB.Close()
 		}()
 		f.Sig = "backup-" + f.Sig
-		f.Msg = "in the opened backup: " + f.Msg
+		f.Msg = fmt.Sprintf("backup #%d, %s: in the opened backup: %s", kb.n, when, f.Msg)
 		return f
 	}
 	if err := copyDB.Close(); err != nil {
-		return failf("backup-close-error", "closing the backup: %v", err)
+		return failf("backup-close-error", "closing backup #%d: %v", kb.n, err)
 	}
+	kb.checks++
+	return nil
+}
+
+// recheckBackups re-opens every kept backup: it must still hold the mapping of its backup time (plus the harness's
+// own writes into it), whatever the source has done in the meantime.
+func (r *Runner) recheckBackups() *Fail {
+	for _, kb := range r.kept {
+		if f := r.verifyBackup(kb, fmt.Sprintf("re-examined after %d more steps of the source", len(r.Ops))); f != nil {
+			return f
+		}
+		r.F.BackupRechecks++
+	}
+	return nil
+}
+
+func (r *Runner) dropBackup(kb *keptBackup) {
 	if r.IO != nil {
-		r.IO.Forget(dst)
+		r.IO.Forget(kb.dir)
 	}
-	_ = os.RemoveAll(dst)
+	_ = os.RemoveAll(kb.dir)
+}
+
+// execTear restarts the database over the remains of an interrupted append: Close, then the harness appends an
+// INCOMPLETE record (a chunk header announcing more payload than follows) to the newest data file, then Open.
+// Recovery has to treat it as the end of the log (C03); the mapping is unchanged and every later guarantee
+// (sync policy, accounting, framing) must hold on the recovered file as on any other.
+func (r *Runner) execTear(op *Op) *Fail {
+	if err := r.DB.Close(); err != nil {
+		r.closed = true
+		return failf("close-error", "Close() = %v", err)
+	}
+	r.closed = true
+	if r.OnClosed != nil {
+		if f := r.OnClosed(r); f != nil {
+			return f
+		}
+	}
+	ents, _ := os.ReadDir(r.Dir)
+	newest := ""
+	for _, e := range ents {
+		if strings.HasSuffix(e.Name(), ".data") && e.Name() > newest {
+			newest = e.Name()
+		}
+	}
+	if newest != "" {
+		path := filepath.Join(r.Dir, newest)
+		fi, err := os.Stat(path)
+		if err == nil {
+			room := int64(BlockSize) - fi.Size()%BlockSize
+			n := int64(op.N)
+			if room <= ChunkHeader {
+				n = 0 // the tail of this block is padding territory; leave the file alone
+			} else if n > room-1 {
+				n = room - 1
+			}
+			if n > 0 {
+				// header: checksum (arbitrary), length = more than what follows, type First; then n-7 payload bytes
+				tail := GenValue(op.VSeed, int(n))
+				if n >= ChunkHeader {
+					announced := uint16(room - ChunkHeader) // would fill the block: always more than the n-7 bytes present
+					tail[4], tail[5], tail[6] = byte(announced), byte(announced>>8), 1
+				}
+				f, err := os.OpenFile(path, os.O_WRONLY|os.O_APPEND, 0)
+				if err == nil {
+					_, _ = f.Write(tail)
+					_ = f.Close()
+					r.F.Tears++
+				}
+			}
+		}
+	}
+	if f := r.open(r.Opt); f != nil {
+		f.Msg = "after an interrupted append was left at the end of the newest file: " + f.Msg
+		return f
+	}
+	r.F.Reopens++
 	return nil
 }
 
@@ -1264,7 +1397,9 @@ func (r *Runner) AddLabels() {
 	lab(r.F.MergeAdopted > 0, "merge-adopted-by-restart")
 	lab(r.F.MergeAdoptedOverGarbage > 0, "merge-over-garbage-adopted")
 	lab(r.F.HintMerges > 0, "merge-with->=2-hint-entries")
+	lab(r.F.Tears > 0, "restart-over-an-incomplete-tail")
 	lab(r.F.Backups > 0, "backup")
+	lab(r.F.BackupRechecks > 0, "backup-re-examined-after-later-source-activity")
 	lab(r.F.Backups > 1, "several-backups")
 	lab(r.F.BackupWithHint > 0, "backup-with-hint-file")
 	lab(r.F.WritesAfterBackup > 0, "write-after-backup")
